@@ -113,3 +113,90 @@ Theorem C18_table_cross_roundtrip_bytes : forall (writer : lang) (pol : policy) 
   jresult_of_result (ok_result c (map (map nl_norm) rows) (physical_lines (written writer pol dlm rows))).
 Proof. exact cross_js_bytes. Qed.
 Print Assumptions C18_table_cross_roundtrip_bytes.
+
+(* ------------------------------------------------------------------ the output header, derived twice *)
+From RBQL Require Import Expr Parser HeaderJs HeaderJs_Proofs.
+From Coq Require String.
+Import String.StringSyntax.
+
+(* "They also derive the same output header from a select list written in syntax common to both languages."
+   The Python port parses the select list (ast) and classifies the SHAPE of each item (Header.info_of on hitem - the model of
+   C07, tied to rbql-py by the C07 correspondence run); the JavaScript port has no parser and classifies the TEXT of each item with
+   five anchored regexes, after marking the stars and splitting at root-level commas (HeaderJs.infos_js, a character-level model tied
+   to rbql-js by entries 551-555).  A select list in the common syntax is a list of [ritem]: aN, a[N] (N any numeral >= 1, leading
+   zeros allowed), a.name, a["name"] / a['name'] (as separate_string_literals hands it over: the placeholder, the literal being in the
+   table), a bare identifier, the three stars, `e as alias` / `e AS alias`, and any other text; [render_item] is its text, [shape]
+   the hitem the Python ast has for it, [src_text items] = ", ".join of the item texts.
+   item_ok lits r = wf_item lits r && star_ok r && trimmed (..) && top_ok (..):
+     wf_item   a.name: name is an identifier [_a-zA-Z][_a-zA-Z0-9]* other than the star marker;  a["name"]: the literal number ks exists
+               in the table and unquote_string of it is name (unquote_quote: true for every name written with backslash and quote
+               escaped);  identifier: [_a-zA-Z][_a-zA-Z0-9]*, not the star marker, not starting with ___RBQL_STRING_LITERAL, not of the
+               form [ab][0-9]+;  e as alias: alias is [a-zA-Z][a-zA-Z0-9_]* (no leading underscore: both ports' AS regexes), e is not
+               blank and has no line terminator after its leading blanks;  other: column_info_from_text_span returns null on the text
+               (other_by_char: e.g. when it holds a character outside [a-zA-Z0-9_.\[\]] and does not end in ` as <word>`, as_alias_sound)
+     star_ok   the item is a star, or neither its text nor what follows any of its commas begins with one of the star spellings
+               (no expression of either language does)
+     trimmed   the item text is not empty and has no blank at either end;  top_ok  brackets balanced, every comma inside brackets.
+   For every item kind except `e as alias` and "other", wf_item alone suffices (C18_header_plain_items). *)
+Theorem C18_header_agree : forall (lits : list str) (items : list ritem), items <> [] -> forallb (item_ok lits) items = true ->
+  infos_js (src_text items) lits = Some (map (option_map jinfo_of_cinfo) (map info_of (map shape items))).
+Proof. exact infos_js_agrees. Qed.
+Print Assumptions C18_header_agree.
+
+(* item by item, whatever blanks surround the item *)
+Theorem C18_header_item_agree : forall (lits : list str) (r : ritem), wf_item lits r = true ->
+  info_js lits (render_marked r) = option_map jinfo_of_cinfo (info_of (shape r)).
+Proof. exact info_js_agrees. Qed.
+Print Assumptions C18_header_item_agree.
+
+Theorem C18_header_plain_items : forall (lits : list str) (r : ritem), is_plain r = true -> wf_item lits r = true -> item_ok lits r = true.
+Proof. exact item_ok_plain. Qed.
+Print Assumptions C18_header_plain_items.
+
+(* hence the header: the JavaScript select_output_header over the infos read from the text (with DISTINCT COUNT's leading null)
+   = the header of C07's model for the shapes (names as Some, no undefined among them) *)
+Theorem C18_header_built_agree : forall (lits : list str) (items : list ritem) (ih jh : option (list str)) (dc : bool),
+  items <> [] -> forallb (item_ok lits) items = true ->
+  option_map (fun qs : list (option jinfo) => select_output_header_js ih jh (if dc then None :: qs else qs)) (infos_js (src_text items) lits)
+  = Some (jhres_of_hres (output_header ih jh (HQSelect (map shape items) dc))).
+Proof. exact header_js_agrees. Qed.
+Print Assumptions C18_header_built_agree.
+
+(* the literal of a["name"]: JavaScript's unquote_string reads back every name from its usual quoted spelling *)
+Theorem C18_header_unquote : forall (q : ch) (name : str), q = APOS \/ q = QT -> unquote_string (quote q name) = Some name.
+Proof. exact unquote_quote. Qed.
+Print Assumptions C18_header_unquote.
+
+(* non-vacuity: one select list with every kind of item *)
+Definition c18_items : list ritem :=
+  [RFieldVar TA $"1"; RFieldSub TB $"12"; RAttr TA $"name"; RDict TA $"0" $"x y"; RVar $"NR"; RStar; RStarB;
+   RAs $"f(a1, [a2, 3]) + 1" false 1 $"total"; ROther $"a1 + b2"; RAs $"a2" true 0 $"Z9_"].
+Example C18_header_nonvacuous :
+  forallb (item_ok [quote QT $"x y"]) c18_items = true /\
+  src_text c18_items = $"a1, b[12], a.name, a[___RBQL_STRING_LITERAL0___], NR, *, b.*, f(a1, [a2, 3]) + 1 as  total, a1 + b2, a2 AS Z9_" /\
+  infos_js (src_text c18_items) [quote QT $"x y"] =
+    Some [Some (JIdx TA 0); Some (JIdx TB 11); Some (JName $"name"); Some (JName $"x y"); Some (JName $"NR"); Some (JStar None);
+          Some (JStar (Some TB)); Some (JAlias $"total"); None; Some (JAlias $"Z9_")].
+Proof. vm_compute. repeat split; reflexivity. Qed.
+Print Assumptions C18_header_nonvacuous.
+
+(* REFUTED outside these hypotheses (each checked on both real implementations):
+   1. a0 (N = 0; a variable the user's init code may define).  Both ports take it for column number 0, index -1.  rbql-js then reads
+      input_header[-1] = undefined, rbql-py input_header[-1] = the LAST name; without an input header (alias present) rbql-js still
+      answers [undefined, alias] while rbql-py raises a bare IndexError. *)
+Theorem C18_header_a0_refuted :
+  info_js [] $"a0" = Some (JIdx TA (-1)) /\
+  (exists ih, build_header_js ih [] [Some (JIdx TA (-1))] [] = [None] /\ build_header_pyz ih [] [Some (JIdx TA (-1))] [] = Some [$"y"]) /\
+  build_header_js [] [] [Some (JIdx TA (-1)); Some (JAlias $"z")] [] = [None; Some $"z"] /\
+  build_header_pyz [] [] [Some (JIdx TA (-1)); Some (JAlias $"z")] [] = None.
+Proof. split; [exact a0_info|]. split; [exists hdr_xy; exact a0_headers_differ|exact a0_headerless_differ]. Qed.
+Print Assumptions C18_header_a0_refuted.
+
+(*  2. rbql-js reads the text, rbql-py the syntax tree: `(a1)`, `a[ "x" ]` (blanks inside the brackets) and a non-ASCII identifier are
+      "other" items (colN) for rbql-js; the Python ast gives them the shape HField / HDict / HVar of `a1`, `a["x"]`, the identifier,
+      so rbql-py names the column after the source column / the identifier (fourth conjunct: without the blanks rbql-js does too) *)
+Theorem C18_header_text_only_refuted :
+  info_js [] $"(a1)" = None /\ info_js [quote QT $"x"] ($"a[ " ++ placeholder 0 ++ $" ]") = None /\ info_js [] [233%N] = None /\
+  info_js [quote QT $"x"] ($"a[" ++ placeholder 0 ++ $"]") = Some (JName $"x").
+Proof. exact js_text_only. Qed.
+Print Assumptions C18_header_text_only_refuted.
